@@ -86,7 +86,7 @@ CFG = {
     "tiers": ("t2", "sem"), "extras": [lens_check, gate_check], "sem_is_property": False,
     "corpus": [c % f for c in LB for f in LBF] + ["(?(a)b)", "(?:(?(a)b))*", "(?:ab){2}(?<=abab)", "(?<=\\Z)a", "\\Z"],
     "alpha": ["a", "b", "c", "é", "\n", "-"], "extra_texts": ["éaé", "aéb", "ébc", "abé", "€a", "a€b", "𝄞b", "ab𝄞"],
-    "k_base_quick": 10, "k_extra_quick": 8,
+    "k_base_quick": 10, "k_extra_quick": 12,
     "assumptions": ["text is valid UTF-8 shorter than 2^64 bytes; literal nodes are one character and class nodes have size 1 (parser invariant, checked on the parsed trees by T2)",
                     "the look-behind gate (compile fails iff some look-behind alternative is not constant-size) is tied by T2, not proved",
                     "the \\n*$ helper node of \\Z is constant-size only under its look-ahead (excluded by [zok])"],
